@@ -367,6 +367,18 @@ pub fn write_replay(ctx: &Ctx, v: &Violation, original: &Violation) -> PathBuf {
 /// Replays `path` in a fresh process; true iff that process reproduces the same class
 /// with the same event-log hash.
 pub fn confirm_in_fresh_process(ctx: &Ctx, path: &Path, v: &Violation) -> bool {
+    // classes that compare against real executions (real key draws) are re-executions, not
+    // deterministic replays: allow a few attempts
+    let attempts = if v.class.starts_with("real_binary") { 4 } else { 1 };
+    for _ in 0..attempts {
+        if confirm_once(ctx, path, v) {
+            return true;
+        }
+    }
+    false
+}
+
+fn confirm_once(ctx: &Ctx, path: &Path, v: &Violation) -> bool {
     let exe = std::env::current_exe().expect("current_exe");
     let out = std::process::Command::new(exe)
         .arg("check")
@@ -442,6 +454,7 @@ pub fn conclude(
                     "harness error: violation class {} of sim {} does not reproduce from its explicit scenario (nondeterminism in the harness)",
                     class, v.sim_index
                 );
+                eprintln!("scenario: {}", v.scenario);
                 return 2;
             }
         };
